@@ -4,9 +4,11 @@ import (
 	"github.com/spf13/viper"
 	"fmt"
 	"os"
+	"os/exec"
 	"path/filepath"
 	"strconv"
 	"strings"
+	"syscall"
 	"time"
 
 	"github.com/markusressel/fan2go/internal/configuration"
@@ -161,6 +163,10 @@ func firstLine(s string) string {
 
 func init() {
 	register("C18", func(ctx *Ctx) {
+		if ctx.Mode == "unprivileged" {
+			c18UnprivilegedChild(ctx.Arg)
+			return
+		}
 		if os.Geteuid() != 0 {
 			ctx.Inconclusive("C18 needs root to construct ownership cases")
 			return
@@ -212,6 +218,7 @@ func init() {
 				c18ConfiguredExec(ctx, dir)
 				c18BusyThenChanged(ctx, dir)
 				c18OverlappingCalls(ctx, dir)
+				c18Unprivileged(ctx)
 				c18Config(ctx, dir)
 			}
 		}
@@ -771,4 +778,66 @@ func c18OverlappingCalls(ctx *Ctx, dir string) {
 		ctx.Count("overlapping_calls_of_one_executable", 1)
 		ctx.Nontrivial("overlapping-calls:" + pair[1] + ":" + ch.name)
 	}
+}
+
+// c18Unprivileged: fan2go does not have to run as root (the daemon only prints a hint). The rule is about the file, not
+// about who runs fan2go: run as another user, an executable owned by that very user is still not root's. A child
+// process of the harness drops to uid/gid 12345 and calls the entry points on three scripts: root's (runs), the user's
+// own (refused), another user's (refused). Each script leaves a marker.
+func c18Unprivileged(ctx *Ctx) {
+	pub, err := os.MkdirTemp("/dev/shm", "verif-c18-unprivileged-")
+	if err != nil {
+		ctx.Inconclusive("unprivileged: " + err.Error())
+		return
+	}
+	defer os.RemoveAll(pub)
+	_ = os.Chmod(pub, 0o755)
+	exe := filepath.Join(pub, "vh")
+	src, err := os.ReadFile(selfExe())
+	if err != nil || os.WriteFile(exe, src, 0o755) != nil {
+		ctx.Inconclusive("unprivileged: cannot copy the harness binary")
+		return
+	}
+	_ = os.MkdirAll(filepath.Join(pub, "scratch"), 0o777)
+	_ = os.Chmod(filepath.Join(pub, "scratch"), 0o777)
+	mk := func(name string, uid int) {
+		p := filepath.Join(pub, name)
+		_ = os.WriteFile(p, []byte("#!/bin/sh\necho ran >> "+pub+"/scratch/marker-"+name+"\necho 42\n"), 0o755)
+		_ = os.Chown(p, uid, uid)
+		_ = os.Chmod(p, 0o755)
+	}
+	mk("roots.sh", 0)
+	mk("own.sh", 12345)
+	mk("others.sh", 1000)
+	cmd := exec.Command(exe, "C18", "--mode", "unprivileged", "--arg", pub, "--scratch", filepath.Join(pub, "scratch"))
+	cmd.SysProcAttr = &syscall.SysProcAttr{Credential: &syscall.Credential{Uid: 12345, Gid: 12345}}
+	cmd.Dir = pub
+	out, err := cmd.CombinedOutput()
+	ctx.Eval(3)
+	if err != nil && !strings.Contains(string(out), "UNPRIV ") {
+		ctx.Inconclusive("unprivileged: the child process could not run: " + err.Error() + " " + trunc(string(out)))
+		return
+	}
+	ran := func(name string) bool { _, e := os.Stat(filepath.Join(pub, "scratch", "marker-"+name)); return e == nil }
+	desc := fmt.Sprintf("fan2go's entry points called by a process running as uid/gid 12345: root's script ran=%v, the user's own script ran=%v, another user's script ran=%v; child output: %s", ran("roots.sh"), ran("own.sh"), ran("others.sh"), trunc(string(out)))
+	switch {
+	case ran("own.sh"):
+		ctx.Violation("unprivileged:executable-owned-by-the-invoking-user-was-run", desc, nil)
+	case ran("others.sh"):
+		ctx.Violation("unprivileged:executable-owned-by-another-user-was-run", desc, nil)
+	case !ran("roots.sh"):
+		ctx.Violation("unprivileged:root-owned-executable-not-run", desc, nil)
+	default:
+		ctx.Nontrivial("unprivileged-invoker")
+	}
+}
+
+func c18UnprivilegedChild(pub string) {
+	for _, name := range []string{"roots.sh", "own.sh", "others.sh"} {
+		for _, via := range []string{"SafeCmdExecution", "CmdSensor"} {
+			out, err, pm := c18Invoke(via, filepath.Join(pub, name))
+			fmt.Printf("UNPRIV %s via %s: out=%q err=%v panic=%q uid=%d\n", name, via, out, err, firstLine(pm), os.Geteuid())
+		}
+	}
+	os.Exit(0)
 }
